@@ -650,7 +650,7 @@ KINDS = [('SetParent', 12), ('SetChildren', 9), ('SetLinks', 8), ('ChAppend', 9)
          ('ChMove', 8), ('ChSort', 4), ('ChReorder', 4), ('ChRemoveAll', 2), ('LnAppend', 5), ('LnRemove', 3),
          ('LnRemoveAll', 2), ('OpFloordiv', 9), ('OpShift', 7), ('LstShift', 5), ('LstSetParent', 2), ('LstSetChildren', 4), ('LstSetLinks', 4),
          ('WbsRemove', 2),
-         ('WbsRemoveAll', 2), ('SetEst', 1), ('SetPrio', 2), ('DeepLink', 5), ('SortNone', 3), ('Promote', 3), ('Diamond', 3), ('DeepUndo', 4)]
+         ('WbsRemoveAll', 2), ('SetEst', 1), ('SetPrio', 2), ('DeepLink', 5), ('SortNone', 3), ('Promote', 3), ('Diamond', 3), ('DeepUndo', 4), ('StaleList', 4)]
 P_ILLEGAL = 0.43
 P_STALE = 0.21      # share of list calls that ASK for a pooled facade; ~15 % find one
 
@@ -1396,6 +1396,47 @@ class Gen:
         form = pick_form(rng, vs)
         return ['SetChildren', t, vs], {'form': form, 'aim': 'promote-descendant'}
 
+    def g_StaleList(self, V):
+        """aims at a list view kept ACROSS a call that rewrites the list: `f = t.children` (or wbs.roots), then a
+        reorder / sort / move made directly, then a call through f (remove, move, append, insert, sort, reorder).
+        The view must still be the list of the parent."""
+        rng = self.rng
+        big = [x for x in self.owners(V) if len(V.kids(x)) >= 2]
+        if not big or len(self.W.facades) >= 12:
+            return None
+        o = rng.choice(big)
+        kids = V.kids(o)
+        k = new_facade(self.W, 'ch', o)
+        self.extra_acq = ['ch', o]
+        how = {'aim': 'stale-list'}
+        kid_ids = [V.tid(x) for x in kids]
+        r = rng.random()
+        if r < 0.45:
+            first = ['ChReorder', o, rng.sample(kid_ids, rng.randint(1, len(kid_ids)))], dict(how, facade=None, v=None)
+        elif r < 0.8:
+            first = ['ChSort', o, rng.choice(['id', 'name']), rng.random() < 0.5], dict(how, facade=None, v=None)
+        else:
+            a, b = rng.sample(kids, 2)
+            first = ['ChMove', o, [a], b, None], dict(how, facade=None, form='list', v=None)
+        others = [x for x in V.users() if x not in kids and V.ok_parent(x, o if not V.hid(o) else None)]
+        c = rng.choice(kids)
+        r = rng.random()
+        if r < 0.35:
+            second = ['ChRemove', o, c], dict(how, facade=k)
+        elif r < 0.55 and len(kids) >= 2:
+            d = rng.choice([x for x in kids if x != c])
+            second = ['ChMove', o, [c], d, None], dict(how, facade=k, form='list', v=None)
+        elif r < 0.7 and others:
+            second = ['ChAppend', o, rng.choice(others)], dict(how, facade=k)
+        elif r < 0.8 and others:
+            second = ['ChInsert', o, 0, rng.choice(others)], dict(how, facade=k)
+        elif r < 0.9:
+            second = ['ChReorder', o, [V.tid(c)]], dict(how, facade=k, v=None)
+        else:
+            second = ['ChRemoveAll', o, [V.tid(c)]], dict(how, facade=k, v=None)
+        self.queue = [second]
+        return first
+
     def g_Diamond(self, V):
         """aims at the dependency closure of a DIAMOND: t waits for [a, b, c] where a also waits for b (b is met twice and
         is not the last one); then c is asked to wait for t - a cycle that must be rejected"""
@@ -1532,7 +1573,9 @@ def gen_history(seed):
         op, how = G.gen_op(V)
         how = {k: v for k, v in how.items() if v is not None}
         rec = do_call(W, op, how, ids)
-        rec['acq'] = [acq] if acq else []
+        extra = getattr(G, 'extra_acq', None)          # a facade acquired by an aimed episode just before the call
+        G.extra_acq = None
+        rec['acq'] = [a for a in (acq, extra) if a]
         steps.append(rec)
         snap = rec['post']
         if rec['hung']:
